@@ -440,7 +440,7 @@ pub fn gen_hist(rng: &mut Rng, max_len: usize) -> HistSc {
             4 => Op::Insert { r, k, v: gen_v(rng, 0), c: gen_cancel(rng) },
             5 => Op::InsertFront { r, k, v: gen_v(rng, 0), c: gen_cancel(rng) },
             6 => Op::Remove { r, k, c: gen_cancel(rng) },
-            7 => Op::RemoveAt { r, i: match rng.below(4) { 0 => rng.usize_below(4), 1 => rng.usize_below(12), 2 => rng.usize_below(64), _ => rng.usize_below(700) } },
+            7 => Op::RemoveAt { r, i: match rng.below(20) { 0 => *rng.pick(&[usize::MAX, usize::MAX - 1, 1usize << 63, u32::MAX as usize, u32::MAX as usize + 1, (i64::MAX as usize)]), 1..=5 => rng.usize_below(4), 6..=10 => rng.usize_below(12), 11..=15 => rng.usize_below(64), _ => rng.usize_below(700) } },
             8 => Op::RemoveUnique { r, k },
             9 => Op::Sort { r },
             10 => Op::FromVec { r, es: gen_entries(rng, &uni, 12) },
